@@ -118,12 +118,22 @@ def run(ctx):
         for ws in (0, 1):
             for al in (4, 8, 16, 1):
                 builds.append('build %d %s %d' % (ws, ident, al))
+    # the identifier replaced on the open buffer (flatcc_builder_set_identifier: "may be null or contain all zero, overrides any
+    # identifier given to the start buffer call"): the buffer carries the LAST identifier it was given
+    for start in ('null', '4d4f4e53', '41004344', '00000000'):
+        for ident in idents[:13]:
+            for ws in (0, 1):
+                for al in (4, 8):
+                    builds.append('buildset %d %s %s %d' % (ws, start, ident, al))
     rcb, built, errb = H.run(builds)
     if len(built) != len(builds):
         raise lib.CheckError('ident_diff crashed while building buffers: ' + errb[-2000:])
     bufs = []
     for line, b in zip(builds, built):
-        _, ws, ident, al = line.split()
+        if line.startswith('buildset '):
+            _, ws, _start, ident, al = line.split()
+        else:
+            _, ws, ident, al = line.split()
         if b == 'FAIL':
             ctx.violation('build-failed:%s' % line, 'builder failed to finish a struct-root buffer: ' + line, {'harness_line': line})
             continue
@@ -137,12 +147,12 @@ def run(ctx):
         if idv != 0:
             got = int.from_bytes(raw[pos:pos + 4], 'little')
             if got != idv:
-                ctx.violation('stored-identifier:ws=%s' % ws, 'buffer finished with identifier %s carries %08x at offset %d' % (ident, got, pos),
+                ctx.violation('stored-identifier:%sws=%s' % ('set:' if line.startswith('buildset') else '', ws), 'buffer finished with identifier %s carries %08x at offset %d' % (ident, got, pos),
                               {'harness_line': line, 'buffer_hex': b})
         else:
             # no identifier field: struct (aligned al) must start before pos+4 when al <= 4, i.e. header is not padded by an id
             if int(al) == 4 and hdr_len != pos:
-                ctx.violation('stored-identifier-none:ws=%s' % ws, 'null/zero identifier still occupies header space (struct at %d, expected %d)' % (hdr_len, pos),
+                ctx.violation('stored-identifier-none:%sws=%s' % ('set:' if line.startswith('buildset') else '', ws), 'null/zero identifier still occupies header space (struct at %d, expected %d)' % (hdr_len, pos),
                               {'harness_line': line, 'buffer_hex': b})
         add('stored_model', 'idfield ' + ident, None)
 
@@ -152,10 +162,15 @@ def run(ctx):
         for nid in ('null', '00000000', '4e455354', '4d4f4e53'):
             for al in (4, 8):
                 nb.append('nbuild %s %s %d' % (pid, nid, al))
+                for sid in ('null', '00000000', '53455421', '4d4f4e53'):
+                    nb.append('nbuildset %s %s %s %d' % (pid, nid, sid, al))
     rcn, nbuilt, errn = H.run(nb)
     if len(nbuilt) != len(nb): raise lib.CheckError('ident_diff crashed while building nested buffers: ' + errn[-1500:])
     for line, b in zip(nb, nbuilt):
-        _, pid, nid, al = line.split()
+        if line.startswith('nbuildset '):
+            _, pid, _nstart, nid, al = line.split()
+        else:
+            _, pid, nid, al = line.split()
         ctx.count(line, klass='nested_identifier')
         if b == 'FAIL':
             ctx.violation('nested-build-failed', 'builder failed on a nested struct-root buffer: ' + line, {'harness_line': line}); continue
